@@ -7,6 +7,7 @@ import (
 	"strings"
 	"testing"
 
+	"github.com/flanglet/kanzi-go/v2/bitstream"
 	kio "github.com/flanglet/kanzi-go/v2/io"
 	"pgregory.net/rapid"
 
@@ -29,6 +30,40 @@ type C08Case struct {
 	After      string     `json:"after"`  // caller model after an error: stop, close, close2, write-close
 	ReadJobs   uint       `json:"read_jobs"`
 	ReadBuf    int        `json:"read_buf,omitempty"`
+	// BufSize > 0: Writer and Reader are built on default bitstreams with this buffer size (through
+	// NewWriterWithCtx2 / NewReaderWithCtx2) instead of the 256 KiB default, so that a flush / refill - and
+	// therefore a possible I/O failure - can occur at every write site (header, block length prefix,
+	// block bytes, end marker, Close) with small data
+	BufSize int `json:"buf_size,omitempty"`
+}
+
+// c08NewWriter builds the Writer of a scenario over sink.
+func c08NewWriter(sink *fio.Sink, c C08Case) (*kio.Writer, error) {
+	if c.BufSize <= 0 {
+		return kio.NewWriter(sink, c.Cfg.Transform, c.Cfg.Entropy, c.Cfg.BlockSize, c.Cfg.Jobs, c.Cfg.Checksum, c.Cfg.Hint, false)
+	}
+	obs, err := bitstream.NewDefaultOutputBitStream(sink, uint(c.BufSize))
+	if err != nil {
+		return nil, err
+	}
+	ctx := map[string]any{"transform": c.Cfg.Transform, "entropy": c.Cfg.Entropy, "blockSize": c.Cfg.BlockSize, "jobs": c.Cfg.Jobs,
+		"checksum": c.Cfg.Checksum, "headerless": false}
+	if c.Cfg.Hint > 0 {
+		ctx["fileSize"] = c.Cfg.Hint
+	}
+	return kio.NewWriterWithCtx2(obs, ctx)
+}
+
+// c08NewReader builds the Reader of a scenario over src.
+func c08NewReader(src *fio.Source, c C08Case) (*kio.Reader, error) {
+	if c.BufSize <= 0 {
+		return kio.NewReader(src, max(c.ReadJobs, 1))
+	}
+	ibs, err := bitstream.NewDefaultInputBitStream(src, uint(c.BufSize))
+	if err != nil {
+		return nil, err
+	}
+	return kio.NewReaderWithCtx2(ibs, map[string]any{"jobs": max(c.ReadJobs, 1)})
 }
 
 type c08Pre struct {
@@ -41,7 +76,7 @@ func c08Prepare(c C08Case) (*c08Pre, string) {
 	p := &c08Pre{data: c.Data.Expand()}
 	sink := &fio.Sink{}
 	err := guard(func() error {
-		w, e := kio.NewWriter(sink, c.Cfg.Transform, c.Cfg.Entropy, c.Cfg.BlockSize, c.Cfg.Jobs, c.Cfg.Checksum, c.Cfg.Hint, false)
+		w, e := c08NewWriter(sink, c)
 		if e != nil {
 			return e
 		}
@@ -56,7 +91,7 @@ func c08Prepare(c C08Case) (*c08Pre, string) {
 	p.stream = sink.Data
 	p.sinkWrites, p.sinkCloses = sink.Writes, sink.Closes
 	src := fio.NewSource(p.stream)
-	rd, err := kio.NewReader(src, max(c.ReadJobs, 1))
+	rd, err := c08NewReader(src, c)
 	if err != nil {
 		return nil, "fault-free reader construction failed: " + err.Error()
 	}
@@ -87,7 +122,7 @@ func c08Writer(c C08Case, p *c08Pre, k, k2 int) (msg string, fired bool) {
 	var w *kio.Writer
 	var err error
 	if pe := guard(func() error {
-		w, err = kio.NewWriter(sink, c.Cfg.Transform, c.Cfg.Entropy, c.Cfg.BlockSize, c.Cfg.Jobs, c.Cfg.Checksum, c.Cfg.Hint, false)
+		w, err = c08NewWriter(sink, c)
 		return nil
 	}); pe != nil || err != nil {
 		return fmt.Sprintf("writer construction: %v %v", pe, err), false
@@ -166,7 +201,7 @@ func c08Reader(c C08Case, p *c08Pre, k, k2 int) (msg string, fired bool) {
 	desc := fmt.Sprintf("source-read fault at underlying call %d (second %d, sticky=%v, with-data=%v), reader jobs %d", k, k2, c.Sticky, c.WithData, c.ReadJobs)
 	var rd *kio.Reader
 	var err error
-	if pe := guard(func() error { rd, err = kio.NewReader(src, max(c.ReadJobs, 1)); return nil }); pe != nil {
+	if pe := guard(func() error { rd, err = c08NewReader(src, c); return nil }); pe != nil {
 		return desc + ": reader construction panicked: " + pe.Error(), false
 	}
 	if err != nil {
@@ -289,6 +324,11 @@ func drawC08(t *rapid.T) C08Case {
 	c.After = rapid.SampledFrom([]string{"stop", "close", "close2", "write-close"}).Draw(t, "after")
 	c.ReadJobs = uint(rapid.IntRange(1, 4).Draw(t, "rjobs"))
 	c.ReadBuf = rapid.SampledFrom([]int{0, 100, 4096}).Draw(t, "rbuf")
+	if c.Side != "sink-close" && rapid.IntRange(0, 2).Draw(t, "smallbuf") > 0 {
+		// small bitstream buffers: many flush / refill points with little data, at every write site
+		c.BufSize = rapid.SampledFrom([]int{1024, 1024, 1032, 2048, 4096, 16384}).Draw(t, "bufSize")
+		c.Data.Len = rapid.OneOf(rapid.IntRange(0, 3*c.BufSize), rapid.IntRange(0, 40*c.BufSize)).Draw(t, "lenSmallBuf")
+	}
 	return c
 }
 
@@ -333,6 +373,52 @@ func TestC08(t *testing.T) {
 			r.Violation(t, "iofault", fc, "%s", msg)
 		}
 	})
+	if r.Failed() {
+		return
+	}
+	// Buffer-edge sweep: with a 1 KiB bitstream buffer EVERY data length in a window that spans more than two
+	// buffers is tried, so the flush (and the injected failure) is triggered in turn by every write site of the
+	// stream layer - header, block length prefix, block bytes, end marker written by Close, final flush - at every
+	// byte offset of the buffer; the bit phase varies with the number of blocks and the codec.
+	type edgeCfg struct {
+		tr, en string
+		bs     uint
+		jobs   uint
+		ck     uint
+		kind   int
+	}
+	cfgs := []edgeCfg{{"NONE", "NONE", 1024, 1, 0, gen.KRandom}, {"NONE", "NONE", 1024, 2, 32, gen.KRandom}, {"NONE", "NONE", 4096, 1, 64, gen.KRandom},
+		{"NONE", "HUFFMAN", 1024, 1, 0, gen.KText}, {"LZ", "NONE", 2048, 3, 0, gen.KText}, {"NONE", "ANS0", 1024, 2, 0, gen.KRandom}}
+	step := r.Pick(1, 1)
+	hi := r.Pick(2300, 5200)
+	idx := 0
+	for ci, ec := range cfgs {
+		if !r.Thorough() && ci >= 4 {
+			break
+		}
+		for L := 0; L <= hi; L += step {
+			for _, side := range []string{"sink-write", "source-read"} {
+				idx++
+				if !r.Mine(idx) {
+					continue
+				}
+				c := C08Case{Cfg: gen.Config{Transform: ec.tr, Entropy: ec.en, BlockSize: ec.bs, Jobs: ec.jobs, Checksum: ec.ck, HintClass: "absent"},
+					Data: gen.Recipe{Kind: ec.kind, Len: L, Seed: uint64(ci)}, Side: side, K: -1, Sticky: (L+ci)%2 == 0,
+					After: []string{"close", "close2", "write-close", "stop"}[(L/2+ci)%4], ReadJobs: uint(1 + L%3), BufSize: 1024}
+				if side == "source-read" {
+					c.WithData = L%5 == 0
+				} else if L%7 == 0 {
+					c.Prefix = []int{1, 7, 512}[L/7%3]
+				}
+				if msg, fc := c08Sweep(r, c); msg != "" {
+					r.RecordFailure("iofault", fc, "", msg)
+					t.Fatalf("buffer-edge sweep: %s on %s", msg, jsonOf(fc))
+				}
+				r.Label("edge-sweep")
+			}
+		}
+	}
+	r.SetExhaustive(fmt.Sprintf("buffer-edge sweep: every data length 0..%d x every fault index, 1 KiB bitstream buffers", hi), true)
 }
 
 // kf20Signature recognises known finding KF-20 on the sink contents: exactly one
